@@ -1,0 +1,175 @@
+//go:build verif
+
+package smf
+
+// Contracts for the deductive verifier in /verif (govc). Comment-only.
+//
+// The SMF reader (C02, C05, C09, C10, read side of C01), against the decoder oracle of /verif/spec/smfdec.gvs.
+// The source is the abstract stream of /verif/spec/stdlib.gvs: (sdata, sn, spos, sfault). Postconditions speak
+// about the stream only, never about the schedule of Read results (C09).
+
+//@ macro strm(x) = x != nil && 0 <= x.spos && x.spos <= x.sn
+
+// ---------------------------------------------------------------- chunk header
+//@ func (*chunk).Type
+//@ ensures len(result) == len(c.typ)
+//@ ensures forall i int :: 0 <= i && i < len(c.typ) ==> result[i] == c.typ[i]
+
+//@ func (*chunk).ReadHeader
+//@ uses be32.def
+//@ requires c != nil && strm(rd)
+//@ modifies c.typ, rd.spos, rd.sfault
+//@ ensures [P:C09] rd.sfault == nil ==> (err == nil <==> old(rd.sn) - old(rd.spos) >= 8)
+//@ ensures [P:C02] err == nil ==> (rd.spos == old(rd.spos) + 8 && len(c.typ) == 4 && c.typ[0] == rd.sdata[old(rd.spos)] && c.typ[1] == rd.sdata[old(rd.spos) + 1] && c.typ[2] == rd.sdata[old(rd.spos) + 2] && c.typ[3] == rd.sdata[old(rd.spos) + 3])
+//@ ensures [P:C02] err == nil ==> length == be32(rd.sdata, old(rd.spos) + 4)
+//@ ensures [P:C10] err == io.EOF ==> rd.sfault == nil
+//@ ensures [P:C10] old(rd.sfault) != nil ==> err == old(rd.sfault)
+//@ ensures [H] old(rd.spos) <= rd.spos && rd.spos <= rd.sn && rd.spos <= old(rd.spos) + 8
+//@ ensures [H] rd.sfault == nil ==> old(rd.sfault) == nil
+//@ ensures [H] err != nil && rd.sfault == nil ==> (err == io.EOF && rd.spos == rd.sn)
+
+// ---------------------------------------------------------------- header chunk
+//@ func parseTimeCode
+//@ ensures [P:C02] t.FramesPerSecond == 0 - uint8(raw >> 8) && t.SubFrames == uint8(raw)
+
+//@ macro hdrMetric(d, p) = (be16(d, p + 4) & 0x8000) == 0
+
+//@ func (*reader).parseHeaderData
+//@ uses be16.def
+//@ requires r != nil && r.SMF != nil && strm(reader)
+//@ modifies r.SMF.format, r.SMF.numTracks, r.SMF.TimeFormat, reader.spos, reader.sfault
+//@ ensures [P:C02] result == nil ==> (reader.spos == old(reader.spos) + 6 && r.SMF.format == be16(reader.sdata, old(reader.spos)) && r.SMF.format <= 2 && r.SMF.numTracks == be16(reader.sdata, old(reader.spos) + 2))
+//@ ensures [P:C02] result == nil && hdrMetric(reader.sdata, old(reader.spos)) ==> (typeof(r.SMF.TimeFormat) == typeid(MetricTicks) && uint16(bval(r.SMF.TimeFormat)) == be16(reader.sdata, old(reader.spos) + 4))
+//@ ensures [P:C02] result == nil && !hdrMetric(reader.sdata, old(reader.spos)) ==> (typeof(r.SMF.TimeFormat) == typeid(TimeCode) && asptr(r.SMF.TimeFormat, TimeCode).FramesPerSecond == 0 - reader.sdata[old(reader.spos) + 4] && asptr(r.SMF.TimeFormat, TimeCode).SubFrames == reader.sdata[old(reader.spos) + 5])
+//@ ensures [P:C09] (reader.sfault == nil && old(reader.sn) - old(reader.spos) >= 6 && be16(reader.sdata, old(reader.spos)) <= 2) ==> result == nil
+//@ ensures [P:C09] (reader.sfault == nil && old(reader.sn) - old(reader.spos) < 6) ==> (result == io.EOF || result == errUnsupportedSMFFormat)
+//@ ensures [P:C10] result == io.EOF ==> reader.sfault == nil
+//@ ensures [P:C10] old(reader.sfault) != nil ==> result == old(reader.sfault)
+//@ ensures [H] old(reader.spos) <= reader.spos && reader.spos <= reader.sn && reader.spos <= old(reader.spos) + 6
+//@ ensures [H] reader.sfault == nil ==> old(reader.sfault) == nil
+//@ ensures [H] result != nil && result != io.EOF && reader.sfault == nil ==> result == errUnsupportedSMFFormat
+
+// representation invariant of a reader
+//@ macro rrs(r) = asptr(r.runningStatus, runningstatus.smfreader).reader.status
+//@ macro rdInv(r) = r != nil && r.SMF != nil && strm(r.input) && typeof(r.runningStatus) == typeid(*runningstatus.smfreader) && asptr(r.runningStatus, runningstatus.smfreader) != nil && (rrs(r) == 0 || (rrs(r) >= 0x80 && rrs(r) <= 0xEF))
+
+//@ macro isMThd(d, p) = d[p] == 0x4D && d[p + 1] == 0x54 && d[p + 2] == 0x68 && d[p + 3] == 0x64
+//@ macro isMTrk(d, p) = d[p] == 0x4D && d[p + 1] == 0x54 && d[p + 2] == 0x72 && d[p + 3] == 0x6B
+
+//@ func (*reader).readMThd
+//@ requires rdInv(r)
+//@ modifies r.expectChunk, r.SMF.format, r.SMF.numTracks, r.SMF.TimeFormat, r.input.spos, r.input.sfault
+//@ ensures [P:C02] r.expectChunk
+//@ ensures [P:C02] err == nil ==> (isMThd(r.input.sdata, old(r.input.spos)) && r.input.spos == old(r.input.spos) + 14)
+//@ ensures [P:C02] err == nil ==> (r.SMF.format == be16(r.input.sdata, old(r.input.spos) + 8) && r.SMF.format <= 2 && r.SMF.numTracks == be16(r.input.sdata, old(r.input.spos) + 10))
+//@ ensures [P:C02] err == nil && hdrMetric(r.input.sdata, old(r.input.spos) + 8) ==> (typeof(r.SMF.TimeFormat) == typeid(MetricTicks) && uint16(bval(r.SMF.TimeFormat)) == be16(r.input.sdata, old(r.input.spos) + 12))
+//@ ensures [P:C02] err == nil && !hdrMetric(r.input.sdata, old(r.input.spos) + 8) ==> (typeof(r.SMF.TimeFormat) == typeid(TimeCode) && asptr(r.SMF.TimeFormat, TimeCode).FramesPerSecond == 0 - r.input.sdata[old(r.input.spos) + 12] && asptr(r.SMF.TimeFormat, TimeCode).SubFrames == r.input.sdata[old(r.input.spos) + 13])
+//@ ensures [P:C09] (r.input.sfault == nil && old(r.input.sn) - old(r.input.spos) >= 14 && isMThd(r.input.sdata, old(r.input.spos)) && be16(r.input.sdata, old(r.input.spos) + 8) <= 2) ==> err == nil
+//@ ensures [P:C09] (r.input.sfault == nil && old(r.input.sn) - old(r.input.spos) < 8) ==> err == io.EOF
+//@ ensures [P:C10] err == io.EOF ==> r.input.sfault == nil
+//@ ensures [P:C10] old(r.input.sfault) != nil ==> err == old(r.input.sfault)
+//@ ensures [H] old(r.input.spos) <= r.input.spos && r.input.spos <= r.input.sn
+//@ ensures [H] r.input.sfault == nil ==> old(r.input.sfault) == nil
+
+// track bookkeeping: pt = index of the track being read (-1 before the first), nt = number of tracks announced
+//@ macro pt(r) = int(r.processedTracks)
+//@ macro nt(r) = int(r.SMF.numTracks)
+//@ macro trkInv(r) = -1 <= pt(r) && pt(r) < (nt(r) == 0 ? 1 : nt(r)) && (r.headerIsRead && r.error == nil ==> (len(r.SMF.Tracks) == nt(r) && (r.isDone ==> pt(r) + 1 == nt(r)) && (r.expectChunk && !r.isDone ==> pt(r) + 1 < nt(r)) && (!r.expectChunk && !r.isDone ==> pt(r) >= 0)))
+
+//@ func (*reader).ReadHeader
+//@ requires rdInv(r) && (!r.headerIsRead ==> (len(r.SMF.Tracks) == 0 && r.processedTracks == -1 && !r.isDone && r.error == nil))
+//@ modifies r.error, r.headerIsRead, r.expectChunk, r.isDone, r.SMF.format, r.SMF.numTracks, r.SMF.TimeFormat, r.SMF.Tracks, r.input.spos, r.input.sfault
+//@ ensures [H] r.headerIsRead && result == r.error
+//@ ensures [H] old(r.headerIsRead) ==> (r.error == old(r.error) && r.input.spos == old(r.input.spos) && r.input.sfault == old(r.input.sfault) && r.SMF.Tracks == old(r.SMF.Tracks) && r.SMF.numTracks == old(r.SMF.numTracks) && r.expectChunk == old(r.expectChunk) && r.isDone == old(r.isDone))
+//@ ensures [P:C02] !old(r.headerIsRead) && result == nil ==> (isMThd(r.input.sdata, old(r.input.spos)) && r.input.spos == old(r.input.spos) + 14)
+//@ ensures [P:C02] !old(r.headerIsRead) && result == nil ==> (r.SMF.format == be16(r.input.sdata, old(r.input.spos) + 8) && r.SMF.format <= 2 && r.SMF.numTracks == be16(r.input.sdata, old(r.input.spos) + 10))
+//@ ensures [P:C02] !old(r.headerIsRead) && result == nil && hdrMetric(r.input.sdata, old(r.input.spos) + 8) ==> (typeof(r.SMF.TimeFormat) == typeid(MetricTicks) && uint16(bval(r.SMF.TimeFormat)) == be16(r.input.sdata, old(r.input.spos) + 12))
+//@ ensures [P:C02] !old(r.headerIsRead) && result == nil && !hdrMetric(r.input.sdata, old(r.input.spos) + 8) ==> (typeof(r.SMF.TimeFormat) == typeid(TimeCode) && asptr(r.SMF.TimeFormat, TimeCode).FramesPerSecond == 0 - r.input.sdata[old(r.input.spos) + 12] && asptr(r.SMF.TimeFormat, TimeCode).SubFrames == r.input.sdata[old(r.input.spos) + 13])
+//@ ensures [P:C02] !old(r.headerIsRead) && result == nil ==> (len(r.SMF.Tracks) == nt(r) && forall i int :: 0 <= i && i < len(r.SMF.Tracks) ==> len(r.SMF.Tracks[i]) == 0)
+//@ ensures [P:C05] !old(r.headerIsRead) && result == nil ==> trkInv(r)
+//@ ensures [P:C09] !old(r.headerIsRead) && (r.input.sfault == nil && old(r.input.sn) - old(r.input.spos) >= 14 && isMThd(r.input.sdata, old(r.input.spos)) && be16(r.input.sdata, old(r.input.spos) + 8) <= 2) ==> result == nil
+//@ ensures [P:C10] !old(r.headerIsRead) && result == io.EOF ==> r.input.sfault == nil
+//@ ensures [P:C10] !old(r.headerIsRead) && old(r.input.sfault) != nil ==> result == old(r.input.sfault)
+//@ ensures [H] old(r.input.spos) <= r.input.spos && r.input.spos <= r.input.sn
+//@ ensures [H] r.input.sfault == nil ==> old(r.input.sfault) == nil
+//@ loop 0 invariant 0 <= i && i <= nt(r) && len(r.SMF.Tracks) == i && r.error == nil && r.headerIsRead
+//@ loop 0 invariant forall j int :: 0 <= j && j < len(r.SMF.Tracks) ==> len(r.SMF.Tracks[j]) == 0
+//@ loop 0 decreases nt(r) - i
+
+// ---------------------------------------------------------------- chunk loop
+// readChunk: reads one chunk header; "MTrk" starts the next track, any other chunk is skipped by its length
+//@ func (*reader).readChunk
+//@ requires rdInv(r)
+//@ modifies r.expectedChunkLength, r.error, r.processedTracks, r.expectChunk, r.input.spos, r.input.sfault
+//@ ensures [H] old(r.error) != nil ==> (r.error == old(r.error) && r.processedTracks == old(r.processedTracks) && r.expectChunk == old(r.expectChunk) && r.input.spos == old(r.input.spos) && r.input.sfault == old(r.input.sfault))
+//@ ensures [P:C02] old(r.error) == nil && r.error == nil && isMTrk(r.input.sdata, old(r.input.spos)) ==> (pt(r) == old(pt(r)) + 1 && !r.expectChunk && r.input.spos == old(r.input.spos) + 8)
+//@ ensures [P:C02] old(r.error) == nil && r.error == nil && !isMTrk(r.input.sdata, old(r.input.spos)) ==> (pt(r) == old(pt(r)) && r.expectChunk && r.input.spos == old(r.input.spos) + 8 + int(be32(r.input.sdata, old(r.input.spos) + 4)))
+//@ ensures [P:C09] old(r.error) == nil && r.input.sfault == nil && old(r.input.sn) - old(r.input.spos) >= 8 && isMTrk(r.input.sdata, old(r.input.spos)) ==> r.error == nil
+//@ ensures [P:C09] old(r.error) == nil && r.input.sfault == nil && old(r.input.sn) - old(r.input.spos) >= 8 + int(be32(r.input.sdata, old(r.input.spos) + 4)) ==> r.error == nil
+//@ ensures [P:C10] old(r.error) == nil && r.error == io.EOF ==> r.input.sfault == nil
+//@ ensures [P:C10] old(r.error) == nil && old(r.input.sfault) != nil ==> r.error == old(r.input.sfault)
+//@ ensures [H] old(r.error) == nil && r.error != nil ==> (r.processedTracks == old(r.processedTracks))
+//@ ensures [H] old(r.input.spos) <= r.input.spos && r.input.spos <= r.input.sn
+//@ ensures [H] r.input.sfault == nil ==> old(r.input.sfault) == nil
+//@ ensures [P:C05] old(r.error) == nil && r.error == nil ==> r.input.spos >= old(r.input.spos) + 8
+
+// ---------------------------------------------------------------- one event (the byte after the delta time = canary is already read)
+// d = the stream's data, p0 = position after the canary, rs = running status before the event, k = evKind(canary, rs)
+//@ macro ek(r, b) = evKind(b, rrs(r))
+// length field of a sysex / meta event at p
+//@ macro vq(d, p) = vlqAcc(d, p, vlqSpan(d, p))
+
+//@ func (*reader)._readEvent
+//@ uses vlqSpanDef
+//@ requires rdInv(r)
+//@ modifies r.isDone, r.expectChunk, r.input.spos, r.input.sfault, asptr(r.runningStatus, runningstatus.smfreader).reader.status
+//@ ensures [H] rdInv(r)
+//@ ensures [P:C02] old(ek(r, canary)) != 0 ==> rrs(r) == evRS(canary, old(rrs(r)))
+//@ ensures [P:C05] old(ek(r, canary)) == 0 ==> err != nil
+// channel message with its status byte
+//@ ensures [P:C02] old(ek(r, canary)) == 3 && chNeed2(canary) && err == nil && len(m) != 0 ==> (len(m) == 3 && m[0] == canary && m[1] == r.input.sdata[old(r.input.spos)] && m[2] == r.input.sdata[old(r.input.spos) + 1] && r.input.spos == old(r.input.spos) + 2)
+//@ ensures [P:C02] old(ek(r, canary)) == 3 && !chNeed2(canary) && err == nil ==> (len(m) == 2 && m[0] == canary && m[1] == r.input.sdata[old(r.input.spos)] && r.input.spos == old(r.input.spos) + 1)
+// channel message in running status: the canary is the first data byte
+//@ ensures [P:C02] old(ek(r, canary)) == 4 && chNeed2(old(rrs(r))) && err == nil && len(m) != 0 ==> (len(m) == 3 && m[0] == old(rrs(r)) && m[1] == canary && m[2] == r.input.sdata[old(r.input.spos)] && r.input.spos == old(r.input.spos) + 1)
+//@ ensures [P:C02] old(ek(r, canary)) == 4 && !chNeed2(old(rrs(r))) ==> (err == nil && len(m) == 2 && m[0] == old(rrs(r)) && m[1] == canary && r.input.spos == old(r.input.spos) && r.input.sfault == old(r.input.sfault))
+// a failure while the last data byte is read is not reported here: an empty message comes back and the stream is
+// exhausted or faulty, so that the next read fails (see DESIGN, D10)
+//@ ensures [P:C05] err == nil && len(m) == 0 ==> ((r.input.sfault != nil || r.input.spos == r.input.sn) && (old(ek(r, canary)) == 3 || old(ek(r, canary)) == 4))
+//@ ensures [P:C09] old(ek(r, canary)) == 3 && r.input.sfault == nil && old(r.input.sn) - old(r.input.spos) >= (chNeed2(canary) ? 2 : 1) ==> (err == nil && len(m) != 0)
+//@ ensures [P:C09] old(ek(r, canary)) == 4 && r.input.sfault == nil && old(r.input.sn) - old(r.input.spos) >= 1 ==> (err == nil && len(m) != 0)
+// sysex / escape: F0 or F7, length, that many bytes; the message is the status byte followed by the bytes
+//@ ensures [P:C02] old(ek(r, canary)) == 2 && err == nil ==> (vlqEndsAt(r.input.sdata, old(r.input.spos), vlqSpan(r.input.sdata, old(r.input.spos))) && len(m) == 1 + int(vq(r.input.sdata, old(r.input.spos))) && m[0] == canary && r.input.spos == old(r.input.spos) + vlqSpan(r.input.sdata, old(r.input.spos)) + len(m) - 1)
+//@ ensures [P:C02] old(ek(r, canary)) == 2 && err == nil ==> forall i int :: 0 <= i && i < len(m) - 1 ==> m[1 + i] == r.input.sdata[old(r.input.spos) + vlqSpan(r.input.sdata, old(r.input.spos)) + i]
+// meta event: FF type length bytes; the message is FF type vlq(length) bytes (minimal length encoding)
+//@ ensures [P:C02] old(ek(r, canary)) == 1 && err == nil ==> (vlqEndsAt(r.input.sdata, old(r.input.spos) + 1, vlqSpan(r.input.sdata, old(r.input.spos) + 1)) && m[0] == 0xFF && m[1] == r.input.sdata[old(r.input.spos)] && r.input.spos == old(r.input.spos) + 1 + vlqSpan(r.input.sdata, old(r.input.spos) + 1) + int(vq(r.input.sdata, old(r.input.spos) + 1)))
+//@ ensures [P:C02] old(ek(r, canary)) == 1 && err == nil ==> (len(m) == 2 + vlqLen(vq(r.input.sdata, old(r.input.spos) + 1)) + int(vq(r.input.sdata, old(r.input.spos) + 1)) && vlqAt(m, 2, vq(r.input.sdata, old(r.input.spos) + 1)))
+//@ ensures [P:C02] old(ek(r, canary)) == 1 && err == nil ==> forall i int :: 0 <= i && i < int(vq(r.input.sdata, old(r.input.spos) + 1)) ==> m[2 + vlqLen(vq(r.input.sdata, old(r.input.spos) + 1)) + i] == r.input.sdata[old(r.input.spos) + 1 + vlqSpan(r.input.sdata, old(r.input.spos) + 1) + i]
+// end of track: the last announced track finishes the file, any other is followed by a chunk
+//@ ensures [P:C02] (old(ek(r, canary)) == 1 && err == nil && r.input.sdata[old(r.input.spos)] == 0x2F) ==> ((pt(r) + 1 == nt(r)) ? (r.isDone && r.expectChunk == old(r.expectChunk)) : (r.expectChunk && r.isDone == old(r.isDone)))
+//@ ensures [P:C02] !(old(ek(r, canary)) == 1 && err == nil && r.input.sdata[old(r.input.spos)] == 0x2F) ==> (r.isDone == old(r.isDone) && r.expectChunk == old(r.expectChunk))
+//@ ensures [P:C10] err == io.EOF ==> r.input.sfault == nil
+//@ ensures [P:C10] old(r.input.sfault) != nil && old(ek(r, canary)) != 4 ==> err != nil
+//@ ensures [H] old(r.input.spos) <= r.input.spos && r.input.spos <= r.input.sn
+//@ ensures [H] r.input.sfault == nil ==> old(r.input.sfault) == nil
+//@ ensures [H] err != nil && r.input.sfault == nil && old(ek(r, canary)) != 0 ==> ((err == io.EOF || err == utils.ErrUnexpectedEOF) && r.input.spos == r.input.sn)
+
+// ---------------------------------------------------------------- delta time + event
+//@ func (*reader).readEvent
+//@ uses vlqSpanDef
+//@ requires rdInv(r)
+//@ modifies r.deltatime, r.isDone, r.expectChunk, r.input.spos, r.input.sfault, asptr(r.runningStatus, runningstatus.smfreader).reader.status
+//@ ensures [H] rdInv(r)
+//@ ensures [H] old(r.error) != nil ==> (err == old(r.error) && r.input.spos == old(r.input.spos) && r.input.sfault == old(r.input.sfault) && r.isDone == old(r.isDone) && r.expectChunk == old(r.expectChunk) && r.deltatime == old(r.deltatime))
+//@ ensures [P:C02] old(r.error) == nil && err == nil ==> (vlqEndsAt(r.input.sdata, old(r.input.spos), vlqSpan(r.input.sdata, old(r.input.spos))) && r.deltatime == vq(r.input.sdata, old(r.input.spos)) && r.input.spos >= old(r.input.spos) + vlqSpan(r.input.sdata, old(r.input.spos)) + 1)
+//@ ensures [P:C05] old(r.error) == nil && err == nil ==> r.input.spos > old(r.input.spos)
+//@ ensures [P:C05] old(r.error) == nil && err == nil && len(m) == 0 ==> (r.input.sfault != nil || r.input.spos == r.input.sn)
+//@ ensures [P:C05] err == nil && len(m) == 0 ==> (r.isDone == old(r.isDone) && r.expectChunk == old(r.expectChunk))
+//@ ensures [P:C02] r.isDone ==> (old(r.isDone) || (err == nil && pt(r) + 1 == nt(r) && len(m) >= 2 && m[0] == 0xFF && m[1] == 0x2F))
+//@ ensures [P:C02] r.expectChunk ==> (old(r.expectChunk) || (err == nil && pt(r) + 1 != nt(r) && len(m) >= 2 && m[0] == 0xFF && m[1] == 0x2F))
+//@ ensures [P:C02] err == nil && len(m) >= 2 && m[0] == 0xFF && m[1] == 0x2F && old(r.error) == nil ==> (r.isDone || r.expectChunk)
+//@ ensures [H] !r.isDone ==> !old(r.isDone)
+//@ ensures [H] !r.expectChunk ==> !old(r.expectChunk)
+//@ ensures [P:C10] err == io.EOF && old(r.error) == nil ==> r.input.sfault == nil
+//@ ensures [P:C10] old(r.input.sfault) != nil && old(r.error) == nil ==> err != nil
+//@ ensures [H] old(r.input.spos) <= r.input.spos && r.input.spos <= r.input.sn
+//@ ensures [H] r.input.sfault == nil ==> old(r.input.sfault) == nil
